@@ -6,9 +6,14 @@ import bt
 from bt import algos as A
 rs = np.random.RandomState(SEED)
 fails, evals, distinct, samples = [], 0, set(), []
+class Temp(dict):
+    """target.temp: reading an entry the algo was supposed to leave, and did not, is a recorded failure (not a crash of this script)"""
+    def __missing__(self, k):
+        fails.append(dict(clause="algo-left-no-temp-entry", key=str(k)))
+        return {} if k == "weights" else []
 class T(object):
     def __init__(self, data, now, temp=None, children=None, value=1.0):
-        self._u, self.now, self.temp, self.children, self.value = data, now, dict(temp or {}), children or {}, value
+        self._u, self.now, self.temp, self.children, self.value = data, now, Temp(temp or {}), children or {}, value
         self.positions = pd.DataFrame()
     @property
     def universe(self): return self._u.loc[: self.now]
@@ -86,11 +91,12 @@ for it in range(N):
     tw_ = pd.DataFrame([list(map(float, rs.dirichlet(np.ones(n_assets))))] * n, index=idx, columns=names)
     posw = rs.dirichlet(np.ones(n_assets))
     t = T(data, now, {}, value=1.0); t.positions = pd.DataFrame([posw / data.loc[now].values], index=[now], columns=names)
-    capv = float(rs.uniform(0.001, 0.08))
-    got = A.PTE_Rebalance(capv, tw_, lookback=lb)(t); evals += 1
     diff = posw - tw_.loc[now].values
     pte = float(np.sqrt(diff @ cv @ diff * 252))
-    if bool(got) != (pte > capv): bad("pte-trigger", got=bool(got), pte=pte, cap=capv)
+    capv = float(rs.uniform(0.001, 0.08))
+    for capv in [capv] + [pte * f for f in (0.3, 0.6, 0.9, 1.1, 1.7, 2.5, 4.5)]:     # caps on both sides of the tracking error, near and far
+        got = A.PTE_Rebalance(capv, tw_, lookback=lb)(t); evals += 1
+        if bool(got) != (pte > capv): bad("pte-trigger", got=bool(got), pte=pte, cap=capv)
     # ... also when the held names and the target names differ (a target not bought yet, a holding the target frame lacks)
     if n_assets >= 3:
         held = names[:-1]; tgt_names = names[1:]
